@@ -28,7 +28,7 @@ type C20Case struct {
 func c20Single(c *C20Case) Verdict {
 	sc := c.WF
 	l := sc.Nodes[sc.Root].Leaf
-	w := time.Duration(l.WaitMs) * time.Millisecond
+	w := l.wait()
 	d := time.Duration(c.ExecMs) * time.Millisecond
 	x := newWfExec(sc)
 	x.hook = func(seq int, ev *Ev) {
@@ -50,7 +50,11 @@ func c20Single(c *C20Case) Verdict {
 	if c.CancelAfter >= 0 && c.CancelAfter < attempts-1 && w > 0 {
 		// attempt a ends at (a+1)*d + a*w; the deadline falls strictly inside the following wait
 		deadline = time.Duration(c.CancelAfter+1)*d + time.Duration(c.CancelAfter)*w + w*time.Duration(1+c.Frac%7)/8
-		ctx, cancel = context.WithDeadline(ctx, x.t0.Add(deadline))
+		if c.Frac%2 == 1 {
+			ctx, cancel = context.WithDeadlineCause(ctx, x.t0.Add(deadline), errors.New("custom deadline cause"))
+		} else {
+			ctx, cancel = context.WithDeadline(ctx, x.t0.Add(deadline))
+		}
 	}
 	defer cancel()
 	rr := x.run(ctx)
@@ -105,7 +109,7 @@ func c20Single(c *C20Case) Verdict {
 
 func c20Batch(c *C20Case) Verdict {
 	sc := c.Batch
-	w := time.Duration(sc.WaitMs) * time.Millisecond
+	w := sc.wait()
 	x := newBatchExec(sc)
 	br := x.run()
 	if br.Panic != "" {
@@ -135,7 +139,8 @@ func c20Batch(c *C20Case) Verdict {
 			nontrivial = true
 		}
 		m := sc.modelItem(i)
-		if sc.DeadlineMs == 0 && len(execs) != m.Attempts && !(sc.stop() && len(execs) == 0) {
+		// the attempt count must be the model's unless the deadline actually struck during the run
+		if br.CtxErr == nil && len(execs) != m.Attempts && !(sc.stop() && len(execs) == 0) {
 			return bad("C20:item-attempts", "item %d: %d attempts, model %d", i, len(execs), m.Attempts)
 		}
 		if sc.DeadlineMs > 0 {
@@ -195,9 +200,10 @@ func checkC20(t *testing.T, c C20Case) Verdict {
 	return v
 }
 
-var c20Waits = []int{1, 2, 5, 10, 25, 50, 3600000}
+// retry waits in microseconds: sub-millisecond, the property's 1..50 ms, and one hour
+var c20Waits = []int{100, 999, 1000, 2000, 5000, 10000, 25000, 50000, 3600000000}
 
-func c20SingleCase(kind, style, n, waitMs, mask, cancelAfter, frac, execMs int) C20Case {
+func c20SingleCase(kind, style, n, waitUs, mask, cancelAfter, frac, execMs int) C20Case {
 	s := VisitScript{Action: "x", Fb: Outcome{Pay: 1}}
 	for a := 0; a < n; a++ {
 		o := Outcome{Pay: a}
@@ -206,14 +212,15 @@ func c20SingleCase(kind, style, n, waitMs, mask, cancelAfter, frac, execMs int) 
 		}
 		s.Exec = append(s.Exec, o)
 	}
-	w := &WF{Nodes: []NodeSpec{{Leaf: &LeafSpec{Kind: kind, Style: style, N: n, WaitMs: waitMs, Visits: []VisitScript{s}}}}, Fuel: 3}
+	w := &WF{Nodes: []NodeSpec{{Leaf: &LeafSpec{Kind: kind, Style: style, N: n, WaitUs: waitUs, Visits: []VisitScript{s}}}}, Fuel: 3}
 	return C20Case{WF: w, CancelAfter: cancelAfter, Frac: frac, ExecMs: execMs}
 }
 
 func genC20Batch(rt *rapid.T) C20Case {
 	g := batchGen{MinN: 1, MaxN: 10, MaxC: 4, Modes: []int{0, 1, 2}, MaxBudget: 5, PFail: 600, Fb: true, Gated: 0, PrepForms: []int{PFResults, PFAnySlice}}
 	b := g.gen(rt)
-	b.WaitMs = rapid.SampledFrom(c20Waits).Draw(rt, "wait")
+	b.WaitUs = rapid.SampledFrom(c20Waits).Draw(rt, "wait")
+	b.WaitMs = b.WaitUs / 1000
 	for i := range b.Items {
 		b.Items[i].DurMs = rapid.IntRange(0, 9).Draw(rt, "dur")
 	}
@@ -263,7 +270,7 @@ func TestC20(t *testing.T) {
 			}
 		}
 	}
-	r.exhaustive("single nodes: budgets 2..5 x every failure sequence x waits {1,2,5,10,25,50 ms, 1 h} x {no cancellation, deadline inside the wait after each attempt index} x 3 node kinds")
+	r.exhaustive("single nodes: budgets 2..5 x every failure sequence x waits {0.1, 0.999, 1, 2, 5, 10, 25, 50 ms, 1 h} x {no cancellation, deadline inside the wait after each attempt index} x 3 node kinds")
 	rapidPart(r, "rand-single", r.pick(1500, 80000), genC20Single, checkC20)
 	rapidPart(r, "rand-batch", r.pick(2500, 120000), genC20Batch, checkC20)
 }
